@@ -222,7 +222,7 @@ func (grid *RegularGrid) IntersectQuad(r Ray) (*Quad, float32) {
 
 		// clamp to bounds
 		cellX = (uint)(math.Min((float64)(cellX), (float64)(len(grid.Grid[0])-1)))
-		cellX = (uint)(math.Min((float64)(cellY), (float64)(len(grid.Grid)-1)))
+		cellY = (uint)(math.Min((float64)(cellY), (float64)(len(grid.Grid)-1)))
 
 		tMin := (float32)(math.Inf(1))
 		var resultQuad *Quad
@@ -257,6 +257,10 @@ func (grid *RegularGrid) GetRegion(min Vector3f, max Vector3f) []*Quad {
 	// clamp input to grid size:
 	min = Vector3f{(float32)(math.Max((float64)(min.x), (float64)(grid.Min.x))), 0, (float32)(math.Max((float64)(min.z), (float64)(grid.Min.z)))}
 	max = Vector3f{(float32)(math.Min((float64)(max.x), (float64)(grid.Max.x))), 0, (float32)(math.Min((float64)(max.z), (float64)(grid.Max.z)))}
+	if min.x > max.x || min.z > max.z {
+		// The region lies outside the grid, or its corners are inverted.
+		return []*Quad{}
+	}
 
 	minXGridCoord := (uint)(math.Floor((float64)(min.x-grid.Min.x) / (float64)(grid.Resolution)))
 	minYGridCoord := (uint)(math.Floor((float64)(min.z-grid.Min.z) / (float64)(grid.Resolution)))
